@@ -12,7 +12,7 @@ RULE = ("zones rasters 1x1..12x12 (40x40 sample in thorough): int and float ids,
         "present; random subsets and orders of the seven statistics, user reducers (recording reducers log the multiset of cells "
         "they receive); both return types; zones and values independently in C / Fortran / strided / negative-stride memory layouts; non-trivial = distinct (zones, values, nodata, zone_ids, stats) with >= 2 zones and a "
         "cell that is invalid (NaN/inf/nodata) or a non-finite zone cell")
-BUDGET = {'quick': 60, 'thorough': 500}
+BUDGET = {'quick': 120, 'thorough': 500}
 FLOORS = {'quick': {'table.rows': 400, 'table.values': 400, 'raster_form': 250, 'reducer.multisets': 200, 'zones.-inf': 20,
                     'zones.nan': 60, 'empty_zone_nan': 40, 'nodata.equals_zone_id': 20, 'zone_ids.unsorted': 40, 'layouts_differ_between_inputs': 200},
           'thorough': {'table.rows': 4000, 'table.values': 4000, 'raster_form': 2500, 'reducer.multisets': 2000}}
